@@ -3,6 +3,7 @@ C14 applied to what the real function returned. Used by direct-call workloads an
 propagator execution inside engine runs.
 """
 from framework import oracles as O
+from framework import support
 
 INC, CONS, ENT = 0, 1, 2
 HULL_LIMIT = 20000
@@ -43,6 +44,16 @@ def judge(name, box, params, status, out, second=None, hull_limit=HULL_LIMIT, hu
         else:
             hull, cnt = O.hull(name, box, params)
         facts["hull"] = True
+        if name in support.SUPPORTED:
+            # the two independent hull oracles must agree wherever both apply
+            facts["oracles_cross_checked"] = True
+            if support.hull(name, box, params) != hull:
+                facts["oracle_mismatch"] = True
+    elif name in support.SUPPORTED and all(a <= b for a, b in box):
+        hull = support.hull(name, box, params)  # exact, by feasibility probing - no enumeration
+        cnt = -1
+        facts["hull"] = True
+        facts["hull_by_support"] = True
     if status not in (INC, CONS, ENT):
         fails.append({"prop": "C05", "kind": "bad_status", "detail": "status %r" % (status,)})
         return fails, facts
@@ -60,18 +71,25 @@ def judge(name, box, params, status, out, second=None, hull_limit=HULL_LIMIT, hu
         if facts["hull"] and hull is not None and not contains(out, hull):
             # find a lost tuple
             lost = None
-            for t in O.tuples(box):
-                if O.SEM[name](t, params) and not all(o[0] <= v <= o[1] for o, v in zip(out, t)):
-                    lost = list(t)
-                    break
-            fails.append({"prop": "C05", "kind": "lost_solution",
-                          "detail": "tuple %r satisfies the constraint and lies in the input box but not in output %r"
-                                    % (lost, out)})
+            if facts.get("hull_by_support"):
+                i = [k for k in range(n) if hull[k][0] < out[k][0] or hull[k][1] > out[k][1]][0]
+                v = hull[i][0] if hull[i][0] < out[i][0] else hull[i][1]
+                fails.append({"prop": "C05", "kind": "lost_solution",
+                              "detail": "value %d of variable #%d has a support in the input box (exact hull %r) but is "
+                                        "removed: output %r" % (v, i, hull, out)})
+            else:
+                for t in O.tuples(box):
+                    if O.SEM[name](t, params) and not all(o[0] <= v <= o[1] for o, v in zip(out, t)):
+                        lost = list(t)
+                        break
+                fails.append({"prop": "C05", "kind": "lost_solution",
+                              "detail": "tuple %r satisfies the constraint and lies in the input box but not in output %r"
+                                        % (lost, out)})
     else:
         if facts["hull"] and hull is not None:
             fails.append({"prop": "C05", "kind": "false_inconsistency",
-                          "detail": "inconsistency reported but %d tuples of the input box satisfy it (hull %r)"
-                                    % (cnt, hull)})
+                          "detail": "inconsistency reported but %s tuples of the input box satisfy it (hull %r)"
+                                    % (cnt if cnt >= 0 else "some", hull)})
     # ---------------- beyond the enumeration limit: sampled forms of the same oracles (sound: every report is a real tuple)
     if not facts["hull"] and status in (INC, CONS, ENT):
         import random
